@@ -903,7 +903,14 @@ impl gen::CELVisitorCompat<'_> for Parser {
     fn visit_Bytes(&mut self, ctx: &BytesContext<'_>) -> Self::Return {
         let token = ctx.tok.as_deref().expect("Has to have bytes!");
         let string = ctx.get_text();
-        match parse::parse_bytes(&string[2..string.len() - 1]) {
+        // Drop the `b` / `B` prefix; what follows is an ordinary (possibly raw, possibly
+        // triple-quoted) string literal.
+        let quoted = &string[1..];
+        let bytes = match raw_literal_body(quoted) {
+            Some(body) => Ok(body.as_bytes().to_vec()),
+            None => parse::parse_bytes(strip_quotes(quoted)),
+        };
+        match bytes {
             Ok(bytes) => self
                 .helper
                 .next_expr(token, Expr::Literal(Val::Bytes(bytes))),
